@@ -57,13 +57,22 @@ Print Assumptions C03_report_auth.
    not) against ANY reply of the peer (client role) or any lookup result (server
    role).  Cache lookup, expiry and the command map are C06/C07's subject. *)
 
-(* success + own Authentication REQUIRED  =>  the session resumed was recorded as
-   an authenticated one *)
-Theorem C03_resumed_auth_required : forall (x : rrun) (r : result),
-  rrun_out x = Ok r -> c_auth (rrun_cfg x) = Rq ->
-  exists e, rrun_entry x = Some e /\ e_authed e = Some true.
-Proof. exact resumed_auth_required. Qed.
+(* client: success + own Authentication REQUIRED  =>  the session resumed was
+   recorded as an authenticated one *)
+Theorem C03_resumed_auth_required : forall (c : cfg) (e : sentry) (rp : rreply) (r : result),
+  client_resume c e rp = Ok r -> c_auth c = Rq -> e_authed e = Some true.
+Proof. exact resumed_auth_required_client. Qed.
 Print Assumptions C03_resumed_auth_required.
+
+(* server: NOT enforced by ServerHandshake itself (known finding
+   c03-resumed-auth-required-server): the authenticator's config is only the
+   default policy; the policy of the resumed command is enforced by the
+   dispatching server on the faithfully restored outcome (C03_resumed_report
+   below; C05_dispatch).  Witness, replayed on the real code by the check: *)
+Theorem C03_resumed_auth_required_server_refuted :
+  exists c e r, server_resume c (Some e) = Ok r /\ c_auth c = Rq /\ e_authed e = Some false.
+Proof. exact resumed_auth_required_server_refuted. Qed.
+Print Assumptions C03_resumed_auth_required_server_refuted.
 
 (* success + own Encryption or Integrity REQUIRED  =>  the stream really encrypts
    with the cached key, which is a usable AES-GCM key *)
@@ -140,5 +149,5 @@ Proof. vm_compute. reflexivity. Qed.
    an unauthenticated one under Authentication REQUIRED *)
 Example C03_ex_resumed_refused :
   rrun_out (ResumeAsClient (mkCfg Op Rq Op [mCTB] [cAES] true) (mkE EKNone (Some true)) (RReply RAuthorized)) = Err []
-  /\ rrun_out (ResumeAsServer (mkCfg Rq Op Op [mCTB] [cAES] true) (Some (mkE (EK32 true) (Some false)))) = Err [].
+  /\ rrun_out (ResumeAsClient (mkCfg Rq Op Op [mCTB] [cAES] true) (mkE (EK32 true) (Some false)) (RReply RAuthorized)) = Err [].
 Proof. vm_compute. split; reflexivity. Qed.
